@@ -49,6 +49,9 @@ def run(tier):
     rnd = random.Random(common.seed())
     common.build("plain")
     wd = common.workdir("c05")
+    for cfgname in ("MC_Multipart2.cfg", "MC_Multipart1.cfg", "MC_MultipartBad.cfg"):
+        r = common.tlc("MC_Multipart", cfgname, workers=4, timeout=600)
+        ck.require_ok("MultipartImpl/" + cfgname, r); ck.add_tlc("MultipartImpl/" + cfgname + " (FinalState for every partition, ValidImpliesGood)", r)
     fams = scenario_families(rnd, tier)
     scs = []; groups = []
     for fi, (B, missing, opts, tag) in enumerate(fams):
